@@ -8,6 +8,7 @@ package main
 //
 //	c<a>:<i.j..>  callback invoked for replica a with these key indexes
 //	r<a>+<b>..    the harness lets the callbacks of replicas a, b.. return at once (logged BEFORE the gates open)
+//	d<a>          the callback of replica a returns now (logged inside the callback, right before `return`)
 //	f<a>          the goroutine of replica a has completely finished (only with a wrapping spawner)
 //	x             the harness cancelled the caller's context
 //	C             the cleanup callback ran
@@ -335,6 +336,7 @@ func c10Run(c *c10Case) (string, string) {
 		if inline {
 			lastInline.Store(int64(a))
 			tr.add("r" + strconv.Itoa(a))
+			tr.add("d" + strconv.Itoa(a))
 			return errs[a]
 		}
 		select {
@@ -342,6 +344,7 @@ func c10Run(c *c10Case) (string, string) {
 		default:
 		}
 		<-g
+		tr.add("d" + strconv.Itoa(a)) // logged by the callback itself, immediately before it returns
 		return errs[a]
 	}
 	cleanupFn := func() { tr.add("C") }
